@@ -37,7 +37,7 @@ from .. import common
 LEVEL = "model_checking"
 ASSUMPTIONS = [
     "hashes are treated as distinct symbols: SHA-256d collisions/preimages are outside the model (real SHA-256d is what runs)",
-    "closure over trees of 1..8 leaves (thorough 1..16). quick: full alphabet for n=1..4 and n=8, chain-only assignments (no further node) for n=5..7, whose IncompleteHashTree has the same shape as n=8; thorough: full alphabet for n=1..8, for 9..16 leaves the 'one further node' is restricted to the root and the two cousins of the leaf (n=16) or omitted (n=9..15, same tree shape as 16). Reachability of every population state is ensured by the explicit expand-x operations",
+    "closure over trees of 1..8 leaves (thorough also 9,12,13,16). quick: full alphabet for n=1..4 and n=8, chain-only assignments (no further node) for n=5..7, whose IncompleteHashTree has the same shape as n=8; thorough: full alphabet for n=1..8, for 9..16 leaves the 'one further node' is restricted to the root and one cousin of the leaf (n=16) or omitted (n=9,12,13: same tree shape as 16, different real/padding split); n=10,11,14,15 are not run. Reachability of every population state is ensured by the explicit expand-x operations",
     "forged values are two fixed 32-byte strings and b''; an adversary value that happens to equal a genuine node is the O alternative",
     "17..64 (thorough ..256) leaves: only the closed family of validation orders listed in coverage.rule, not every order",
 ]
@@ -207,9 +207,9 @@ def extras_for(w, leafslot, mode, kindset="GFO"):
         xs = [0] if 0 not in chain else []
         ch = ref_chain(leafnode)
         if len(ch) >= 2:
-            for c in (2 * ch[1] + 1, 2 * ch[1] + 2):
-                if c < w.size and c not in chain:
-                    xs.append(c)
+            c = 2 * ch[1] + 1
+            if c < w.size and c not in chain:
+                xs.append(c)
     else:
         xs = []
     out = [None]
@@ -483,8 +483,9 @@ def run(tier, seed):
     else:
         for n in range(1, 9):
             plan.append((n, "GFAOE", "all"))
-        for n in range(9, 17):
-            plan.append((n, "GFAO", "few" if n == 16 else "none"))
+        for n in (9, 12, 13):
+            plan.append((n, "GFAO", "none"))
+        plan.append((16, "GFAO", "few"))
         big = list(range(9, 65)) + [100, 127, 128, 129, 255, 256]
     per_n = closure_all({str(n): [kinds, mode] for n, kinds, mode in plan}, seed, big, res)
     closure_states = sum(per_n.values())
@@ -507,6 +508,6 @@ def run(tier, seed):
 MANIFEST = {
     "engine": "H",
     "technique": "explicit-state reachability closure over the population states of a real IncompleteHashTree, every adversarial set_hashes call applied in every state, stepped against a symbolic genuine-tree reference",
-    "text": "All population states reachable from {trusted root} for trees of 1..8 leaves (thorough 1..16) are enumerated to closure; in each state every leaf is offered with every genuine/forged/absent/other-node/empty assignment over its hash chain plus one further node, on the real set_hashes. Success must imply a genuine leaf and only genuine stored nodes, the asked-for genuine hashes must be accepted, and a rejection must leave the slot list untouched. Closed families of validation orders cover trees up to 64 (thorough 256) leaves.",
+    "text": "All population states reachable from {trusted root} for trees of 1..8 leaves (thorough also 9, 12, 13, 16) are enumerated to closure; in each state every leaf is offered with every genuine/forged/absent/other-node/empty assignment over its hash chain plus one further node, on the real set_hashes. Success must imply a genuine leaf and only genuine stored nodes, the asked-for genuine hashes must be accepted, and a rejection must leave the slot list untouched. Closed families of validation orders cover trees up to 64 (thorough 256) leaves.",
     "note": "Hashes are distinct symbols (no SHA-256d collisions). HashTree itself is cross-checked against an independent hashlib computation. Every transition is an implementation run, so traces_validated_against_impl = transitions. Which exception type is raised is only counted.",
 }
